@@ -254,6 +254,64 @@ impl Basis {
     pub fn full(&self) -> bool {
         self.rank == self.l
     }
+    /// A non-zero vector C with row . C = 0 for every row inserted so far (None if the rank is
+    /// full): free columns take the values `free()` supplies (forced non-zero for the first one),
+    /// pivot columns follow by back-substitution.
+    pub fn kernel_vector(&self, free: &mut dyn FnMut() -> u8) -> Option<Vec<u8>> {
+        if self.full() {
+            return None;
+        }
+        let f = field();
+        let mut c = vec![0u8; self.l];
+        let mut first = true;
+        for col in (0..self.l).rev() {
+            match &self.rows[col] {
+                None => {
+                    let mut v = free();
+                    if first && v == 0 {
+                        v = 1;
+                    }
+                    first = false;
+                    c[col] = v;
+                }
+                Some(row) => {
+                    let mut acc = 0u8;
+                    for j in col + 1..self.l {
+                        if row[j] != 0 && c[j] != 0 {
+                            acc ^= f.mul[row[j] as usize][c[j] as usize];
+                        }
+                    }
+                    c[col] = acc;
+                }
+            }
+        }
+        Some(c)
+    }
+}
+
+/// row . c over GF(256)
+pub fn dot(row: &[u8], c: &[u8]) -> u8 {
+    let f = field();
+    let mut acc = 0u8;
+    for (a, b) in row.iter().zip(c) {
+        if *a != 0 && *b != 0 {
+            acc ^= f.mul[*a as usize][*b as usize];
+        }
+    }
+    acc
+}
+
+/// The source block (K symbols of T octets) whose intermediate symbols are the kernel vector `c`
+/// scaled by a non-zero multiplier per octet position.
+pub fn block_from_intermediate(pr: &Params, c: &[u8], mults: &[u8]) -> Vec<u8> {
+    let mut out = Vec::with_capacity(pr.k as usize * mults.len());
+    for i in 0..pr.k {
+        let v = dot(&lt_row(pr, i), c);
+        for m in mults {
+            out.push(gmul_slow(*m, v));
+        }
+    }
+    out
 }
 
 /// Basis holding the pre-code rows and the padding rows of a K-symbol block.
